@@ -415,6 +415,10 @@ fn change(kind: ChangeKind, h: Option<[u8; 16]>, data: Vec<u8>) -> CacheChange {
 
 fn paths(t: DynamicType<'static>, d: &DynamicData<'static>) -> String {
     let hw = writer_handle(d);
+    if hw.len() != 32 {
+        // write / dispose return the error before any change is handed to the transport
+        return vec![hw; 7].join(" ");
+    }
     let mut out = vec![hw.clone()];
     let reprs = [XCDR_DATA_REPRESENTATION, XCDR2_DATA_REPRESENTATION];
     // sample travels without key hash
